@@ -94,6 +94,9 @@ def gen(ctx):
                                       r.choice(['C', 'strided', 'neg'])))
             elif r.random() < 0.2:
                 chunks.append(dict(kind='list', value=small_values(r, (r.randint(1, 2),) + tail, 'int64').tolist()))
+            elif i and r.random() < 0.3:
+                # the first chunk's numeric type in the OTHER byte order
+                chunks.append(nd_spec(rand_array(r, nt, 'big' if bo == 'little' else 'little', (r.randint(1, 3),) + tail)))
             else:
                 arr = rand_array(r, nt, bo, (r.randint(0, 3),) + tail) if i == 0 or r.random() < .5 else \
                     small_values(r, (r.randint(0, 3),) + tail, dtype_str(nt, bo))
